@@ -1,6 +1,7 @@
 """property id -> contract modules that carry obligations for it"""
 TECH = "contract-based deductive verification: VCs generated from the AST of the real functions, discharged by z3/cvc5"
 PROPS = {
+    "C06": {"modules": ["contracts.hdd"], "level": "proof", "technique": TECH},
     "C05": {"modules": ["contracts.vdi"], "level": "proof", "technique": TECH},
     "C04": {"modules": ["contracts.vhd"], "level": "proof",
             "technique": "contract-based deductive verification: VCs generated from the AST of the real functions, discharged by z3/cvc5"},
